@@ -185,7 +185,7 @@ def cases(tier, seed):
         for f, r, m, _ in tr:
             yield {"kind": "starts", "family": f, "revision": r, "memory": m}
         for f, r, m, _ in tr:
-            for k in range(DRAWS):
+            for k in range(3 * DRAWS):
                 yield {"kind": "draw", "family": f, "revision": r, "memory": m, "k": k}
         # CLI samples (the CLI parse has no revision option: latest revision only)
         seen = set()
